@@ -145,6 +145,18 @@ func (i *interpreter) intercept(fr *frame, caller *frame, fn *ssa.Function, args
 	if h := i.P.hooks[name]; h != nil {
 		return h(i, fr, fn, args), true
 	}
+	if strings.HasPrefix(name, "(*sync/atomic.Pointer[") {
+		// instantiations of the generic atomic.Pointer[T]: the pointer is kept in the cell of field v
+		if k := strings.LastIndex(name, "])."); k >= 0 {
+			m := name[k+3:]
+			if b := strings.Index(m, "["); b >= 0 {
+				m = m[:b]
+			}
+			if r, ok := i.atomicPointerOp(m, args); ok {
+				return r, true
+			}
+		}
+	}
 	path := fnPkgPath(fn)
 	if isNoopPkg(path) {
 		return i.noopResult(fn.Signature, args), true
@@ -677,6 +689,48 @@ func (i *interpreter) callMethodLookup(itf iface, name string) (*ssa.Function, b
 		if ms.At(k).Obj().Name() == name {
 			return i.prog.MethodValue(ms.At(k)), true
 		}
+	}
+	return nil, false
+}
+
+// atomicPointerOp implements the methods of atomic.Pointer[T] (struct { _ [0]*T; _ noCopy; v unsafe.Pointer }):
+// the stored *T lives, as a *value, in the last field.
+func (i *interpreter) atomicPointerOp(method string, args []value) (value, bool) {
+	p, ok := args[0].(*value)
+	if !ok || p == nil {
+		panic(runtimeErrorString("runtime error: invalid memory address or nil pointer dereference"))
+	}
+	st, ok := (*p).(structure)
+	if !ok || len(st) == 0 {
+		return nil, false
+	}
+	cell := &st[len(st)-1]
+	get := func() value {
+		if q, ok := (*cell).(*value); ok {
+			return q
+		}
+		return (*value)(nil)
+	}
+	switch method {
+	case "Load":
+		i.yield("atomic.Pointer.Load")
+		return get(), true
+	case "Store":
+		i.yield("atomic.Pointer.Store")
+		*cell = args[1]
+		return nil, true
+	case "Swap":
+		i.yield("atomic.Pointer.Swap")
+		old := get()
+		*cell = args[1]
+		return old, true
+	case "CompareAndSwap":
+		i.yield("atomic.Pointer.CompareAndSwap")
+		if get() == args[1].(*value) {
+			*cell = args[2]
+			return true, true
+		}
+		return false, true
 	}
 	return nil, false
 }
